@@ -122,6 +122,36 @@ CHECKS["C20"] = dict(
     technique="symbolic execution of the real import/merge code on split vs. single-file trees with symbolic names + SMT",
 )
 
+CHECKS["C10"] = dict(
+    engine="pysym",
+    category="model_checking",
+    text="The real GeneratorManager.generate -> Verifier.verify/run_checks -> @catch -> CodeGenerator.gen -> "
+         "handle_result runs under pysym with a stub plug-in (found by the real pkgutil discovery) whose checks, "
+         "registered in every category next to the real general checks, return symbolic booleans, and whose generate() "
+         "returns records with symbolic type/path/contents; file-system calls of fcp.codegen go to a recording model. "
+         "On every path: some verdict false => Err, no mutation, generator never run; all true => Ok and exactly the "
+         "file records are written with their contents.",
+    design_ref="DESIGN.md §4 C10",
+    note="Restricted scope (stated): the click CLI wrapper and side effects inside a real plug-in's own generate() are "
+         "outside; the four real plug-ins are additionally run concretely through GeneratorManager.generate with "
+         "accepted/rejected schemas into a temp directory (conformance of the stub, not the deciding step). Verdict "
+         "bits are unconstrained, so the solver's contribution is exhaustive path forking.",
+    technique="symbolic execution of the real generate/verify control flow with symbolic check verdicts and records + recording FS model",
+)
+CHECKS["C12"] = dict(
+    engine="pysym",
+    category="model_checking",
+    text="Trees parsed by the real front end from templates (all node kinds: units, ranges, nested type chains, "
+         "bindings with fields and signal blocks, services) get every leaf replaced by a symbolic value; the real "
+         "reflection() record is compared with a reference description of the tree and pushed through the real "
+         "serde.encode/decode with the real reflection schema: z3 proves record == reference and decode(encode(record)) "
+         "== record for all leaf values.",
+    design_ref="DESIGN.md §4 C12",
+    note="Trusted: as C01 plus reference_record (written from the property and reflection.fcp's field names). Bound: 4 "
+         "templates x string-length patterns; extension-field values stay concrete (they are rendered by str()).",
+    technique="symbolic execution of the real reflection + codec on trees with symbolic leaves + SMT validity",
+)
+
 NOT_APPLICABLE = {
     "C07": "Subject is the Lark Earley parser with a dynamic regex lexer over all texts: it cannot be executed "
            "symbolically by CrossHair or by the proxy engine within reach (DESIGN.md §6); grammar-based generation would "
